@@ -23,3 +23,14 @@ Lemma enum_order : go_enum_MatchOperator = map mop_go all_mops
   /\ go_enum_BinaryOperator = ["BinaryOpAnd"; "BinaryOpOr"] /\ go_enum_UnaryOperator = ["UnaryOpNot"].
 Proof. repeat split; reflexivity. Qed.
 
+(* Go spellings of the reflect kinds *)
+Definition kind_go (k : kind) : string :=
+  match k with
+  | KBool => "reflect.Bool" | KInt => "reflect.Int" | KInt8 => "reflect.Int8" | KInt16 => "reflect.Int16" | KInt32 => "reflect.Int32" | KInt64 => "reflect.Int64"
+  | KUint => "reflect.Uint" | KUint8 => "reflect.Uint8" | KUint16 => "reflect.Uint16" | KUint32 => "reflect.Uint32" | KUint64 => "reflect.Uint64"
+  | KFloat32 => "reflect.Float32" | KFloat64 => "reflect.Float64" | KString => "reflect.String"
+  | KUintptr => "reflect.Uintptr" | KComplex => "reflect.Complex128" | KArray => "reflect.Array" | KChan => "reflect.Chan" | KFunc => "reflect.Func"
+  | KInterface => "reflect.Interface" | KMap => "reflect.Map" | KPtr => "reflect.Ptr" | KSlice => "reflect.Slice" | KStruct => "reflect.Struct"
+  | KUnsafe => "reflect.UnsafePointer" | KInvalid => "reflect.Invalid" end.
+Definition all_kinds := [KInvalid; KBool; KInt; KInt8; KInt16; KInt32; KInt64; KUint; KUint8; KUint16; KUint32; KUint64; KUintptr; KFloat32; KFloat64;
+  KComplex; KArray; KChan; KFunc; KInterface; KMap; KPtr; KSlice; KString; KStruct; KUnsafe].
